@@ -944,8 +944,11 @@ class LasHeader:
                 type_id = extradims.get_id_for_extra_dim_type(dtype)
 
             eb_struct.data_type = type_id
-            eb_struct.scale = extra_dimension.scales
-            eb_struct.offset = extra_dimension.offsets
+            if type_id != 0:
+                # for undocumented extra bytes (type 0) the options field
+                # holds the number of bytes, not the scale/offset flags
+                eb_struct.scale = extra_dimension.scales
+                eb_struct.offset = extra_dimension.offsets
 
             eb_vlr.extra_bytes_structs.append(eb_struct)
 
